@@ -5,7 +5,7 @@ _ENG = {"crate": "core", "bin": "sv-c09", "machine": "c09", "nontrivial_min_ops"
 PROP = {
     "generated": ["ReconTables"],
     "lean_modules": ["SwimVerif.Model.Recon", "SwimVerif.Model.ReconProto", "SwimVerif.Proofs.Recon",
-                     "SwimVerif.Proofs.ReconStruct",
+                     "SwimVerif.Proofs.ReconStruct", "SwimVerif.Proofs.ReconStyles",
                      "SwimVerif.Generated.ReconTables"],
     "engines": [
         # model values -> real printers (exact text vs model print) and print/parse cycles (vs model parse)
@@ -28,7 +28,7 @@ PROP = {
                   "(never an error, never the surrogate panic); the printer's quoting decision is_identifier agrees "
                   "with the tokenizer's identifier for every string — both over tables regenerated from the sources; "
                   "every text / integer / byte string token is lexed back; parse(print v) = v (up to integer kinds, which "
-                  "Value::eq ignores) and the fixed point after one cycle for the compact printer on the stated fragment "
+                  "Value::eq ignores) and the fixed point after one cycle for each of the three printers on the stated fragment "
                   "of values (strong induction over records/attributes/items), with witnesses that the unrestricted "
                   "statement is false of the code as it is.  Correspondence: real print_recon{,_compact,_pretty} = model print (exact text) on generated "
                   "model values, real parse_recognize::<Value> = model parse on grammar-generated documents and on "
@@ -36,8 +36,8 @@ PROP = {
                   "parser under every single cut and random multi-cuts (implementation-vs-implementation), no panic / no "
                   "hang on mutated and invalid input.",
     "level_note": "Labelled partial: parse-after-print is proved for the model parser (a reference recursive descent "
-                  "that is tied to the real nom automaton by differential testing only) and, so far, for the compact "
-                  "style without floats; f64 <-> text (ryu, {:e}, str::parse) is not modelled — floats are exact "
+                  "that is tied to the real nom automaton by differential testing only), for the three styles, "
+                  "without floats; f64 <-> text (ryu, {:e}, str::parse) is not modelled — floats are exact "
                   "shortest decimals and generators stay where ryu and {:e} agree; chunk-insensitivity of the real "
                   "streaming decoder is tested, not proved.",
     "trusted_base": COMMON_TRUST + [
